@@ -127,6 +127,10 @@ func ruleDateRepair(c *Ctx, rule string) {
 				}
 				guard := ""
 				for _, dc := range controlConds(in.Block()) {
+					// the end of a loop that stands in front of the call (an inlined strip loop) is not a condition
+					if blockInCycle(dc.block) && !reachableAvoiding(in.Block(), dc.block, nil) {
+						continue
+					}
 					for _, lf := range condLeaves(dc.cond, dc.onTrue) {
 						a, _, ok := c.An.AtomOf(lf.v)
 						if ok && (a.Key == "nil:resp" || a.Key == "nil:err") {
